@@ -26,6 +26,8 @@ pub enum Codec {
     Lines,
     Bytes,
     LenPrefix,
+    /// LenPrefix plus one end-of-stream frame produced by `decode_eof` from an empty buffer
+    LenTrailer,
 }
 
 #[derive(Serialize, Deserialize, Clone, Debug)]
@@ -60,6 +62,10 @@ pub enum Action {
     WPending,
     WZero,
     WErr,
+    /// the next write fails with ErrorKind::Interrupted (nothing written)
+    WIntr,
+    /// the next n writes accept k bytes each
+    WTrickle(usize, usize),
     FlushPlan(u8),
     ShutdownPlan(u8),
     FireWaker,
@@ -81,6 +87,7 @@ enum WPlan {
     Pending,
     Zero,
     Err,
+    Intr,
 }
 
 #[derive(Debug, Clone, Copy, PartialEq)]
@@ -170,6 +177,10 @@ impl AsyncWrite for SimIo {
             WPlan::Err => {
                 self.call_log.push("w-err");
                 Poll::Ready(Err(io::Error::new(io::ErrorKind::BrokenPipe, "injected write error")))
+            }
+            WPlan::Intr => {
+                self.call_log.push("w-intr");
+                Poll::Ready(Err(io::Error::new(io::ErrorKind::Interrupted, "injected EINTR")))
             }
         }
     }
@@ -264,8 +275,42 @@ impl Encoder<Bytes> for LenPrefix {
     }
 }
 
+/// The same framing, stateful: when the stream is over `decode_eof` yields one trailer frame from
+/// the empty buffer (a codec's "stream ended" marker) and only then `None`.
+#[derive(Debug, Clone, Copy, Default)]
+struct LenTrailer {
+    trailer_sent: bool,
+}
+
+impl Decoder for LenTrailer {
+    type Item = Vec<u8>;
+    type Error = io::Error;
+
+    fn decode(&mut self, src: &mut BytesMut) -> Result<Option<Vec<u8>>, io::Error> {
+        LenPrefix.decode(src)
+    }
+
+    fn decode_eof(&mut self, src: &mut BytesMut) -> Result<Option<Vec<u8>>, io::Error> {
+        match LenPrefix.decode_eof(src)? {
+            Some(f) => Ok(Some(f)),
+            None if !self.trailer_sent => {
+                self.trailer_sent = true;
+                Ok(Some(b"#trailer".to_vec()))
+            }
+            None => Ok(None),
+        }
+    }
+}
+
+impl Encoder<Bytes> for LenTrailer {
+    type Error = io::Error;
+    fn encode(&mut self, item: Bytes, dst: &mut BytesMut) -> Result<(), io::Error> {
+        LenPrefix.encode(item, dst)
+    }
+}
+
 // ------------------------------------------------------------------------------------------------
-// items, type-erased over the three codecs
+// items, type-erased over the codecs
 
 #[derive(Debug, Clone, PartialEq)]
 enum Item {
@@ -307,7 +352,7 @@ fn gen_stream(cfg: &Config) -> Vec<u8> {
                 out.push((i as u8).wrapping_mul(31).wrapping_add(rng.below(3) as u8));
             }
         }
-        Codec::LenPrefix => {
+        Codec::LenPrefix | Codec::LenTrailer => {
             while out.len() < cfg.stream_len {
                 let n = if cfg.long {
                     *rng.pick(&[0usize, 1, 2, 100, 1021, 1022, 1023, 4000, 8189, 8190, 8191, 9000, 30000])
@@ -329,34 +374,32 @@ fn gen_stream(cfg: &Config) -> Vec<u8> {
     out
 }
 
-/// Reference: the same codec applied to the undivided stream, then its end-of-stream frames.
-fn reference<D: Decoder>(mut codec: D, stream: &[u8], conv: impl Fn(D::Item) -> Vec<u8>) -> Vec<Item> {
+/// Reference: the same codec applied to the undivided stream (decode errors are items and decoding
+/// goes on behind them), then its end-of-stream frames. Second result: for every item of the
+/// decode phase, the stream offset at which it is complete.
+fn reference<D: Decoder>(mut codec: D, stream: &[u8], conv: impl Fn(D::Item) -> Vec<u8>) -> (Vec<Item>, Vec<usize>) {
     let mut buf = BytesMut::from(stream);
     let mut out = Vec::new();
-    loop {
+    let mut end_off = Vec::new();
+    for _ in 0..(stream.len() + 4) {
         match codec.decode(&mut buf) {
             Ok(Some(f)) => out.push(Item::Frame(conv(f))),
             Ok(None) => break,
-            Err(_) => {
-                out.push(Item::DecodeErr);
-                return out;
-            }
+            Err(_) => out.push(Item::DecodeErr),
         }
+        end_off.push(stream.len() - buf.len());
     }
     for _ in 0..(stream.len() + 4) {
         match codec.decode_eof(&mut buf) {
             Ok(Some(f)) => out.push(Item::Frame(conv(f))),
             Ok(None) => {
                 out.push(Item::End);
-                return out;
+                return (out, end_off);
             }
-            Err(_) => {
-                out.push(Item::DecodeErr);
-                return out;
-            }
+            Err(_) => out.push(Item::DecodeErr),
         }
     }
-    out
+    (out, end_off)
 }
 
 trait ErasedFramed {
@@ -417,12 +460,14 @@ macro_rules! erased {
 erased!(FLines, LinesCodec, LinesCodec::default(), |s: String| s.into_bytes(), |v: Vec<u8>| String::from_utf8(v).unwrap(), String);
 erased!(FBytes, BytesCodec, BytesCodec, |b: BytesMut| b.to_vec(), |v: Vec<u8>| Bytes::from(v), Bytes);
 erased!(FLen, LenPrefix, LenPrefix, |v: Vec<u8>| v, |v: Vec<u8>| Bytes::from(v), Bytes);
+erased!(FLenTr, LenTrailer, LenTrailer::default(), |v: Vec<u8>| v, |v: Vec<u8>| Bytes::from(v), Bytes);
 
 fn make(codec: &Codec) -> Box<dyn ErasedFramed> {
     match codec {
         Codec::Lines => Box::new(FLines(Box::pin(Framed::new(SimIo::default(), LinesCodec::default())))),
         Codec::Bytes => Box::new(FBytes(Box::pin(Framed::new(SimIo::default(), BytesCodec)))),
         Codec::LenPrefix => Box::new(FLen(Box::pin(Framed::new(SimIo::default(), LenPrefix)))),
+        Codec::LenTrailer => Box::new(FLenTr(Box::pin(Framed::new(SimIo::default(), LenTrailer::default())))),
     }
 }
 
@@ -431,11 +476,15 @@ fn make(codec: &Codec) -> Box<dyn ErasedFramed> {
 
 fn run_c13(cfg: &Config, ch: &mut Chooser<Action>, ctx: &mut RunCtx) -> Option<Violation> {
     let stream = gen_stream(cfg);
-    let expect: Vec<Item> = match cfg.codec {
+    let (expect, end_off): (Vec<Item>, Vec<usize>) = match cfg.codec {
         Codec::Lines => reference(LinesCodec::default(), &stream, |s: String| s.into_bytes()),
         Codec::Bytes => reference(BytesCodec, &stream, |b: BytesMut| b.to_vec()),
         Codec::LenPrefix => reference(LenPrefix, &stream, |v: Vec<u8>| v),
+        Codec::LenTrailer => reference(LenTrailer::default(), &stream, |v: Vec<u8>| v),
     };
+    // number of items that are complete once the first p bytes of the stream have been read
+    let decodable = |p: usize| end_off.iter().filter(|e| **e <= p).count();
+    let mut fed_at_err = 0usize;
     let mut f = make(&cfg.codec);
     let mut fed = 0usize;
     let mut eof_fed = false;
@@ -477,8 +526,6 @@ fn run_c13(cfg: &Config, ch: &mut Chooser<Action>, ctx: &mut RunCtx) -> Option<V
                         // past the reference list: only End (again) is acceptable after End
                         if *item == Item::End && expect.last() == Some(&Item::End) {
                             None
-                        } else if expect.last() == Some(&Item::DecodeErr) {
-                            None // after a decode error behaviour is codec-specific
                         } else {
                             Some(Violation::new("frames-differ", format!("extra item {i}: {}", show(item))))
                         }
@@ -507,7 +554,7 @@ fn run_c13(cfg: &Config, ch: &mut Chooser<Action>, ctx: &mut RunCtx) -> Option<V
                 en.push((Action::FeedErr, 1));
             }
         }
-        let ended = got.last() == Some(&Item::End) || (got.last() == Some(&Item::DecodeErr));
+        let ended = got.last() == Some(&Item::End);
         if !ended || ended_polls < 2 {
             if !parked || task.woken() {
                 en.push((Action::PollNext, cfg.w_poll));
@@ -562,6 +609,7 @@ fn run_c13(cfg: &Config, ch: &mut Chooser<Action>, ctx: &mut RunCtx) -> Option<V
             Action::FeedErr => {
                 f.io().rq.push_back(ReadEv::Err);
                 err_fed = true;
+                fed_at_err = fed;
                 ctx.bump("fault.read_error");
                 if let Some(w) = f.io().read_waker.take() {
                     w.wake();
@@ -585,6 +633,15 @@ fn run_c13(cfg: &Config, ch: &mut Chooser<Action>, ctx: &mut RunCtx) -> Option<V
                         if f.io().read_pendings == pend_before {
                             return Some(Violation::new("pending-without-cause", "poll_next returned Pending although the transport did not"));
                         }
+                        // the transport is drained: whatever is complete in the bytes read so far
+                        // has been yielded (a frame kept back here is lost to a peer that waits)
+                        let withheld = if cfg.codec == Codec::Bytes { bytes_got.len() < fed } else { got.len() < decodable(fed) };
+                        if withheld {
+                            return Some(Violation::new(
+                                "frame-withheld",
+                                format!("poll_next returned Pending after {fed} bytes were read although only {} of the {} items complete in them have been yielded", got.len(), decodable(fed)),
+                            ));
+                        }
                         if draining {
                             return Some(Violation::new("stuck-stream", "all bytes and EOF were delivered but poll_next stays Pending"));
                         }
@@ -598,6 +655,17 @@ fn run_c13(cfg: &Config, ch: &mut Chooser<Action>, ctx: &mut RunCtx) -> Option<V
                                 return Some(Violation::new("io-error-wrong", "an I/O error item appeared that was not injected (or appeared twice)"));
                             }
                             ctx.bump("probe.io_error_surfaced");
+                            // order: frames whose bytes were read before the error come first
+                            let late = if cfg.codec == Codec::Bytes { bytes_got.len() < fed_at_err } else { got.len() < decodable(fed_at_err) };
+                            if late {
+                                return Some(Violation::new(
+                                    "io-error-overtook-frames",
+                                    format!("the I/O error injected after {fed_at_err} bytes was yielded when only {} of the {} items complete in those bytes had been yielded", got.len(), decodable(fed_at_err)),
+                                ));
+                            }
+                            if got.contains(&Item::DecodeErr) {
+                                ctx.bump("probe.io_error_after_decode_error");
+                            }
                             continue;
                         }
                         if ended {
@@ -613,8 +681,14 @@ fn run_c13(cfg: &Config, ch: &mut Chooser<Action>, ctx: &mut RunCtx) -> Option<V
                         if let Some(v) = check(&got, &bytes_got, &item, &stream, fed) {
                             return Some(v);
                         }
+                        if item == Item::DecodeErr && expect.get(got.len()).map_or(false, |n| *n != Item::End) {
+                            ctx.bump("probe.items_behind_decode_error");
+                        }
                         if item == Item::End {
                             ctx.bump("probe.end_reached");
+                            if got.len() >= 2 && got[got.len() - 2] == Item::Frame(b"#trailer".to_vec()) {
+                                ctx.bump("probe.eof_frame_from_empty_buffer");
+                            }
                             if !eof_fed {
                                 return Some(Violation::new("ended-early", "stream yielded None before EOF was delivered"));
                             }
@@ -715,6 +789,10 @@ fn run_c14(cfg: &Config, ch: &mut Chooser<Action>, ctx: &mut RunCtx) -> Option<V
                 if cfg.faults {
                     en.push((Action::WZero, 1));
                     en.push((Action::WErr, 1));
+                    en.push((Action::WIntr, 1));
+                }
+                if f.io().wplans.is_empty() {
+                    en.push((Action::WTrickle(*[20usize, 40].get(sent % 2).unwrap(), *[1usize, 64, 300].get(sent % 3).unwrap()), 1));
                 }
             }
             if f.io().fplans.len() < 2 {
@@ -765,6 +843,9 @@ fn run_c14(cfg: &Config, ch: &mut Chooser<Action>, ctx: &mut RunCtx) -> Option<V
                 };
                 let log = f.io().call_log.clone();
                 let wrote = f.io().written.len() - before;
+                if log.iter().filter(|l| **l == "w-ok").count() > 16 {
+                    ctx.bump("probe.more_than_16_writes_in_one_call");
+                }
                 if wrote > 0 && f.io().written.len() < expected.len() {
                     partials += 1;
                     ctx.bump("probe.partial_progress");
@@ -837,6 +918,11 @@ fn run_c14(cfg: &Config, ch: &mut Chooser<Action>, ctx: &mut RunCtx) -> Option<V
                             }
                         }
                     }
+                    Poll::Ready(Err(e)) if e.kind() == io::ErrorKind::Interrupted && log.contains(&"w-intr") => {
+                        // EINTR handed to the caller: nothing is lost, the caller polls again
+                        parked[i] = false;
+                        ctx.bump("probe.interrupted_reported");
+                    }
                     Poll::Ready(Err(e)) => {
                         errored = true;
                         ctx.bump("probe.sink_error");
@@ -860,6 +946,15 @@ fn run_c14(cfg: &Config, ch: &mut Chooser<Action>, ctx: &mut RunCtx) -> Option<V
             Action::WErr => {
                 ctx.bump("fault.write_error");
                 f.io().wplans.push_back(WPlan::Err)
+            }
+            Action::WIntr => {
+                ctx.bump("fault.write_interrupted");
+                f.io().wplans.push_back(WPlan::Intr)
+            }
+            Action::WTrickle(n, k) => {
+                for _ in 0..n {
+                    f.io().wplans.push_back(WPlan::Accept(k));
+                }
             }
             Action::FlushPlan(c) => {
                 if c == 2 {
@@ -920,9 +1015,10 @@ impl Engine for IoSim {
     }
     fn gen_config(prop: &str, tier: Tier, rng: &mut Rng) -> Config {
         let long = rng.chance(1, if tier == Tier::Thorough { 6 } else { 12 });
-        let codec = match rng.below(4) {
+        let codec = match rng.below(5) {
             0 => Codec::Bytes,
             1 => Codec::LenPrefix,
+            2 => Codec::LenTrailer,
             _ => Codec::Lines,
         };
         Config {
@@ -967,9 +1063,9 @@ impl Engine for IoSim {
     fn describe(prop: &str) -> Describe {
         Describe {
             rule: if prop == "C13" {
-                "byte streams (0..64 bytes over an alphabet with the codec's delimiters / length prefixes incl. a poison length; long streams of 1-40 KiB with frames around the 1 KiB and 8 KiB marks and larger than 8 KiB) cut into read chunks by seeded Feed(n) actions, Pending wherever the stream is polled with nothing available, optional single read error, EOF; items compared one by one with the same codec applied to the undivided stream (BytesCodec: concatenation); non-trivial = >=2 items and >=1 Pending read; distinct = distinct event-trace hash".into()
+                "byte streams (0..64 bytes over an alphabet with the codec's delimiters / length prefixes incl. a poison length; long streams of 1-40 KiB with frames around the 1 KiB and 8 KiB marks and larger than 8 KiB) cut into read chunks by seeded Feed(n) actions, Pending wherever the stream is polled with nothing available, optional single read error, EOF; items (frames and decode errors, decoding goes on behind an error) compared one by one with the same codec applied to the undivided stream (BytesCodec: concatenation), a stateful partner codec yields an end-of-stream frame from the empty buffer; whenever the stream returns Pending or the injected I/O error, every item complete in the bytes read before has been yielded; non-trivial = >=2 items and >=1 Pending read; distinct = distinct event-trace hash".into()
             } else {
-                "item sequences (<=12 items, sizes 0,1,17,LW-1,LW,LW+1,3000,HW-1,HW,HW+1,3HW) and transport scripts (accept k bytes / Pending / zero / error; flush and shutdown Ok / Pending / error) interleaved with poll_ready / start_send / poll_flush / poll_close under strict-wake; byte ledger and result invariants after every call; non-trivial = >=1 item accepted and a flush or close succeeded; distinct = distinct event-trace hash".into()
+                "item sequences (<=12 items, sizes 0,1,17,LW-1,LW,LW+1,3000,HW-1,HW,HW+1,3HW) and transport scripts (accept k bytes / runs of 20-40 small accepts / Pending / zero / error / EINTR; flush and shutdown Ok / Pending / error) interleaved with poll_ready / start_send / poll_flush / poll_close under strict-wake; byte ledger and result invariants after every call; non-trivial = >=1 item accepted and a flush or close succeeded; distinct = distinct event-trace hash".into()
             },
             real: vec!["actix_codec::Framed (Stream and Sink faces)", "actix_codec::LinesCodec", "actix_codec::BytesCodec"],
             stub: vec!["transport (SimIo: scripted AsyncRead/AsyncWrite)", "length-prefixed codec (harness partner with decode error and decode_eof tail)", "executor (strict-wake manual polling)"],
@@ -978,9 +1074,9 @@ impl Engine for IoSim {
     }
     fn required_probes(prop: &str, _tier: Tier) -> Vec<&'static str> {
         if prop == "C13" {
-            vec!["probe.pending_returned", "probe.end_reached", "probe.io_error_surfaced", "probe.frame_larger_than_hw"]
+            vec!["probe.pending_returned", "probe.end_reached", "probe.io_error_surfaced", "probe.frame_larger_than_hw", "probe.items_behind_decode_error", "probe.io_error_after_decode_error", "probe.eof_frame_from_empty_buffer"]
         } else {
-            vec!["probe.partial_progress", "probe.sink_pending", "probe.close_ok", "probe.write_zero_reported", "probe.ready_after_flush"]
+            vec!["probe.partial_progress", "probe.sink_pending", "probe.close_ok", "probe.write_zero_reported", "probe.ready_after_flush", "probe.interrupted_reported", "probe.more_than_16_writes_in_one_call"]
         }
     }
 }
